@@ -87,13 +87,21 @@ def step (toks : List String) : String :=
       | ang :: r => match mkV r with
         | some (ax, []) => qs (angleAxis ang ax) | _ => bad
       | _ => bad
-    | "newaxes" => match mkV a with
+    | "newaxes00" => match mkV a with
       | some (v, r) => match mkV r with
-        | some (w, []) => qs (toNewAxes v w) | _ => bad
+        | some (w, []) => qs (toNewAxesWith fromTo false v w) | _ => bad
       | _ => bad
-    | "newaxesfixed" => match mkV a with
+    | "newaxes10" => match mkV a with
       | some (v, r) => match mkV r with
-        | some (w, []) => qs (toNewAxesFixed v w) | _ => bad
+        | some (w, []) => qs (toNewAxesWith fromToFixed false v w) | _ => bad
+      | _ => bad
+    | "newaxes01" => match mkV a with
+      | some (v, r) => match mkV r with
+        | some (w, []) => qs (toNewAxesWith fromTo true v w) | _ => bad
+      | _ => bad
+    | "newaxes11" => match mkV a with
+      | some (v, r) => match mkV r with
+        | some (w, []) => qs (toNewAxesWith fromToFixed true v w) | _ => bad
       | _ => bad
     | "orbit" => match a with
       | [o, i, w] => qs (orbit o i w) | _ => bad
